@@ -373,8 +373,21 @@ fn ev_value(log: &mut Log, loc: &Locale) {
         (0..ids.len()).any(|n| ids.is_char_boundary(n) && loc.id == &ids[..n])
             || loc.id == format!("{}-", ids).as_str() || loc.id == format!("{}-x", ids).as_str() || loc.id == ids.to_ascii_uppercase().as_str() && ids.to_ascii_uppercase() != ids
     }), Ok(true));
-    // ... and it does hold for the canonical text itself, at any length
-    let own_str_ne = !matches!(guard(|| loc.id == ids.as_str()), Ok(true));
+    // ... and it does hold for the canonical text itself, at any length: for a long variant list every prefix
+    // of the list is tried, so that every text length and every alignment of a subtag boundary occurs
+    let own_str_ne = !matches!(guard(|| {
+        let mut ok = loc.id == ids.as_str();
+        let vs: Vec<Variant> = loc.id.variants().cloned().collect();
+        if vs.len() > 12 {
+            let mut li = loc.id.clone();
+            for k in 0..vs.len() {
+                li.set_variants(&vs[..k]);
+                let t = li.to_string();
+                ok = ok && li == t.as_str() && matches!(LanguageIdentifier::from_bytes(t.as_bytes()), Ok(ref back) if *back == li && hash_of(back) == hash_of(&li));
+            }
+        }
+        ok
+    }), Ok(true));
     log.ev(json!({"op":"value","st": proj_loc(loc),"ser": b(&ser),"reparse_ok": reparse_ok,"ext_reparse_ok": ext_ok,"parts_ok": parts_ok,
                   "same_text_equal": same_text_equal, "foreign_str_eq": foreign_str_eq || own_str_ne}));
 }
